@@ -11,8 +11,9 @@
  "native": true,
  "native_models": [],
  "timeout": 300,
- "assumptions": ["symbolic string object of fewer than HS_MAXLEN characters (the loop proof itself is inductive: any number of iterations); 28 covers 20 digits + space + prefix + B + junk",
-                 "meta-level: a rejection before the end of the string is final because the specification automaton's dead state is absorbing and the digit value only grows (stated in the contract, cross-checked by the harness-level run of the automaton over the whole string)"]
+ "assumptions": ["one clause of the contract (accepted => *size == g_hs_sz * g_hs_mult) is compiled out here and decided by group C16/hs_parse_mul with z3; the arithmetic link machine product = exact product: group C16/hs_mul_lemma",
+                 "symbolic string object of fewer than HS_MAXLEN characters (the loop proof itself is inductive: any number of iterations); 28 covers 20 digits + space + prefix + B + junk",
+                 "meta-level: a rejection before the end of the string is final because the specification automaton's dead state is absorbing and the digit value only grows (stated in the contract; cross-checked, bounded, by group C16/hs_parse_full which runs the automaton over the whole string)"]
 }
 */
 #define HS_PARSE_ENTRY h_hs_parse
